@@ -91,12 +91,32 @@ class Param:
             sg = 1 if posdef else -1
             self.p0 = sg * _spd(rng, n)
             self.space = "sym"
-            if cls == "dense_pd":
-                self.build = lambda p: mm.DensePositiveDefiniteMatrix(np.array(p))
-            else:
-                self.build = lambda p: mm.DenseDefiniteMatrix(np.array(p), is_posdef=posdef)
-            self.dense = lambda p: np.array(p)
-            self.opts = [posdef]
+            # constructor options: bare array (factor computed lazily), caller-supplied lower / upper triangular factor
+            # (matrix = sign * F F^T in both cases), inverse-triangular factor, or the object obtained as the inverse of
+            # the dense matrix holding the inverse array (its factor is an upper inverse-triangular one)
+            variant = str(rng.choice(["array", "factor_lower", "factor_upper", "factor_inv_lower", "via_inv"]))
+
+            def build(p, variant=variant, sg=sg, posdef=posdef, cls=cls):
+                a = np.array(p)
+                a = (a + a.T) / 2
+                kw = {} if cls == "dense_pd" else {"is_posdef": posdef}
+                c = mm.DensePositiveDefiniteMatrix if cls == "dense_pd" else mm.DenseDefiniteMatrix
+                if variant == "array":
+                    return c(a, **kw)
+                if variant == "via_inv":
+                    return c(np.linalg.inv(a), **kw).inv
+                if variant == "factor_lower":
+                    return c(a, mm.TriangularMatrix(np.linalg.cholesky(sg * a), lower=True), **kw)
+                if variant == "factor_upper":
+                    lo = np.linalg.cholesky((sg * a)[::-1, ::-1])
+                    return c(a, mm.TriangularMatrix(np.ascontiguousarray(lo[::-1, ::-1]), lower=False), **kw)
+                # sg * a = F F^T with F = (L^-1)^-1 handed over as an InverseTriangularMatrix of L^-1
+                lo = np.linalg.cholesky(sg * a)
+                return c(a, mm.InverseTriangularMatrix(np.linalg.inv(lo), lower=True), **kw)
+
+            self.build = build
+            self.dense = lambda p: (np.array(p) + np.array(p).T) / 2
+            self.opts = [posdef, variant]
         elif cls == "dense_product":
             k = n + int(rng.integers(1, 3))
             rect = rng.standard_normal((n, k))
